@@ -62,6 +62,8 @@ def _sim_class():
         def run(self):
             if self._tool == "missing":
                 raise OSError("cannot launch the job")
+            if self._tool == "badopt":
+                raise TypeError("option cannot be passed to the job")
             self._backend = "running"
 
         def is_finished(self):
@@ -73,7 +75,7 @@ def _sim_class():
         def evaluate(self):
             if self._tool in ("exit3", "garbage"):
                 raise RuntimeError("job failed / unparsable output")
-            self._results = "reversed" if self._tool == "reordered" else "identity"
+            self._results = {"reordered": "reversed", "rotated": "rotated"}.get(self._tool, "identity")
 
         def clean_up(self):
             self._files = False
@@ -128,7 +130,7 @@ class Harness:
         self.bin = os.path.join(self.dir, "fake_msa")
         os.symlink(FAKE, self.bin)
         os.environ["FAKE_MSA_TRIGGER"] = self.trigger
-        os.environ["FAKE_MSA_BEHAVIOUR"] = tool if tool != "missing" else "ok"
+        os.environ["FAKE_MSA_BEHAVIOUR"] = tool if tool not in ("missing", "badopt") else "ok"
         os.environ["FAKE_MSA_VERSION"] = {"muscle3": "MUSCLE v3.8.31 by Robert C. Edgar",
                                           "muscle5": "muscle 5.1.linux64 []"}.get(kind, "fake 1.0")
         self.cleanups = 0
@@ -147,6 +149,8 @@ class Harness:
             self.app.set_exec_dir(self.exec_dir)
         if tool == "missing" and kind != "sim":
             os.unlink(self.bin)  # the binary disappears before the launch
+        if tool == "badopt" and kind != "sim":
+            self.app.add_additional_options(["--threads", 2])  # a non-string option: Popen refuses
         # count outermost clean_up() invocations from outside
         orig = self.app.clean_up
 
@@ -288,8 +292,10 @@ class Harness:
         n = len(self.inputs)
         if o == list(range(n)):
             return "identity"
-        if o == list(range(n - 1, -1, -1)):
+        if o == list(range(n - 1, -1, -1)) and n > 2:
             return "reversed"
+        if o == [n - 1] + list(range(n - 1)):
+            return "rotated"
         return f"other:{o}"
 
     def _check_tree(self, tree):
@@ -402,7 +408,7 @@ def gen_trace(item):
     rng = random.Random(item["seed"])
     kind = item["kind"]
     tool = item["tool"]
-    seqsets = [("ACGT", "AC", "ACG"), ("A", "A"), ("ACGTTGCA", "ACGT", "TTT", "G"),
+    seqsets = [("ACGT", "AC", "ACG"), ("A", "A", "C"), ("ACGTTGCA", "ACGT", "TTT", "G"),
                ("MKV", "MK", "MKVLA")]
     k = rng.randrange(len(seqsets))
     h = Harness(kind, tool, seqs=seqsets[k], protein=(k == 3))
@@ -501,7 +507,7 @@ def run(ctx):
     os.mkdir(tmp)
     ctx.log(f"S2: {len(paths)} covering paths ({covered}/{len(g.edges)} transitions) -> {len(items)} executions")
     results = run_pool(ctx, "harness.drivers.c20:exec_path", items, stage="S2",
-                       env={"C20_GRAPH": gfile, "C20_TMP": tmp}, item_timeout=60)
+                       env={"C20_GRAPH": gfile, "C20_TMP": tmp}, item_timeout=25)
     ctx.traces_validated += len(items)
     ctx.evaluations += sum(r.get("steps", 0) for r in results if r)
     ctx.nontrivial += sum(1 for it in items if len(it["steps"]) >= 3)
@@ -513,11 +519,11 @@ def run(ctx):
         ctx.sample({"kind": it["kind"], "tool": states[it["init"]]["tool"], "calls": [c for c, _ in it["steps"]]})
     # ---- S3 ----------------------------------------------------------------------------
     ntr = 150 if ctx.quick else 4000
-    tools = ["ok", "reordered", "exit3", "garbage", "missing"]
+    tools = ["ok", "reordered", "rotated", "exit3", "garbage", "missing", "badopt"]
     titems = [{"seed": ctx.rng.randrange(1 << 30), "kind": KINDS[k % len(KINDS)],
                "tool": tools[(k // len(KINDS)) % len(tools)], "length": 16} for k in range(ntr)]
     tres = run_pool(ctx, "harness.drivers.c20:gen_trace", titems, stage="S3",
-                    env={"C20_TMP": tmp}, item_timeout=120)
+                    env={"C20_TMP": tmp}, item_timeout=40)
     traces, kinds = [], []
     for it, r in zip(titems, tres):
         if r and r.get("events"):
